@@ -1092,4 +1092,36 @@ MUTANTS = [
     _m("h36-encode-range", "    num -= 26 * 36**(length-1)\n", "    num -= 25 * 36**(length-1)\n", "R4.ranges-contiguous", rel=H36),
     _m("nan-guard-removed", "    if np.isnan(array.coord).any():\n        raise BadStructureError(\"Coordinates contain 'NaN' values\")\n", "", "R3.nan-refused"),
     _m("cryst1-field", "{b:>9.3f}{c:>9.3f}", "{b:>9.3f}{c:>8.3f}", "R1.column"),
+    # --- one seeded fault per rule that had none (R3.coord-dtype is recorded with ok=True and cannot fire) ---
+    _m("cryst1-z-shifted-left", 'f"{np.rad2deg(gamma):>7.2f} P 1           1          "',
+       'f"{np.rad2deg(gamma):>7.2f} P 1          1           "', "R1.cryst1-tail"),
+    _m("cryst1-space-group-in-column-54", 'f"{np.rad2deg(gamma):>7.2f} P 1           1          "',
+       'f"{np.rad2deg(gamma):>7.2f}P 1            1          "', "R1.cryst1-tail"),
+    _m("first-half-separator-dropped", "            + spaces\n            + res_names.rjust(3)\n", "            + res_names.rjust(3)\n",
+       "R1.half-width"),
+    _m("second-half-padded-too-wide", "{z:>8.3f}{end:26}", "{z:>8.3f}{end:27}", "R1.half-width"),
+    _m("chain-column-from-ins-code", "        chain_ids = np.char.array(array.chain_id)\n", "        chain_ids = np.char.array(array.ins_code)\n",
+       "R1.provenance"),
+    _m("element-column-from-res-name", "        elements = np.char.array(array.element)\n", "        elements = np.char.array(array.res_name).ljust(2)\n",
+       "R1.provenance"),
+    _m("atom-record-gap-two-blanks", "{start:27}   {x:>8.3f}", "{start:27}  {x:>8.3f}", "R1.record-length"),
+    _m("cryst1-one-blank-short", 'f"{np.rad2deg(gamma):>7.2f} P 1           1          "',
+       'f"{np.rad2deg(gamma):>7.2f} P 1           1         "', "R1.record-length"),
+    _m("altloc-slice-two-columns", "_alt_loc = slice(16, 17)", "_alt_loc = slice(16, 18)", "R1.slices-disjoint"),
+    _m("ins-code-slice-starts-early", "_ins_code = slice(26, 27)", "_ins_code = slice(25, 27)", "R1.slices-disjoint"),
+    _m("coord-guard-two-axes", 'enumerate(["x", "y", "z"])', 'enumerate(["x", "y"])', "R3.guard-all-axes"),
+    _m("guard-skipped-for-hybrid36", "        _check_pdb_compatibility(array, hybrid36)\n",
+       "        if not hybrid36:\n            _check_pdb_compatibility(array, hybrid36)\n", "R3.guard-dominates-write"),
+    _m("ins-code-guard-removed", "    if any([len(code) > 1 for code in array.ins_code]):\n        raise BadStructureError(\"Some insertion codes exceed 1 character\")\n",
+       "", "R3.name-length-guard"),
+    _m("chain-id-guard-only-warns", "        raise BadStructureError(\"Some chain IDs exceed 1 character\")\n",
+       "        warnings.warn(\"Some chain IDs exceed 1 character\")\n", "R3.name-length-guard"),
+    _m("h36-decimal-range-short", "    if num < 10**length:\n", "    if num < 10**length - 1:\n", "R4.decimal-range", rel=H36),
+    _m("h36-upper-letter-offset", "        num += 10 * 36**(length-1)\n        return _encode_base36(num, length, _ASCII_FIRST_LETTER_UPPER)\n",
+       "        num += 9 * 36**(length-1)\n        return _encode_base36(num, length, _ASCII_FIRST_LETTER_UPPER)\n", "R4.letter-range", rel=H36),
+    _m("h36-lower-letter-count", "    num -= 26 * 36**(length-1)\n    if num < 26 * 36**(length-1):\n", "    num -= 26 * 36**(length-1)\n    if num < 25 * 36**(length-1):\n",
+       "R4.letter-range", rel=H36),
+    _m("atom-id-encoded-to-res-id-width", "encode_hybrid36(i, 5) for i in atom_id", "encode_hybrid36(i, 4) for i in atom_id", "R4.encode-width"),
+    _m("res-id-encoded-to-atom-id-width", "encode_hybrid36(i, 4) for i in array.res_id", "encode_hybrid36(i, 5) for i in array.res_id", "R4.encode-width"),
+    _m("guard-max-residues-width5", "        max_residues = max_hybrid36_number(4)\n", "        max_residues = max_hybrid36_number(5)\n", "R4.guard-max"),
 ]
